@@ -62,6 +62,7 @@ func init() {
 
 func lamIn3(tag string) *compose.Lambda {
 	return compose.InvokableLambda(func(ctx context.Context, in In3) (string, error) {
+		traceAdd(ctx, tag)
 		return in.X + "|" + in.Y + "|" + in.Z + tag, nil
 	})
 }
